@@ -91,3 +91,14 @@ Example C16_nonvacuous :
   /\ intersect [(0, 10)] 3 1 = [(3, 1)]
   /\ Inv [(2^64 - 3, 2)].
 Proof. unfold Inv, TOP; cbn. repeat split; lia. Qed.
+
+(* "however they were built": the address set that the library reads from a list of address ranges (DW_AT_ranges:
+   any order, overlapping, adjacent, empty entries) is the very same value as the one built from those ranges
+   with the words `aset` and `add` *)
+From Dwgrep Require Import Ranges RangesProofs.
+Theorem C16_ranges_equal_built : forall rs, (forall r, In r rs -> proper r) -> RangesM.die_ranges rs = built rs.
+Proof. exact ranges_equal_built. Qed.
+Print Assumptions C16_ranges_equal_built.
+Example C16_ranges_nonvacuous :
+  RangesM.die_ranges [(48, 64); (16, 32); (32, 48); (5, 5)] = [(16, 48)] /\ built [(48, 64); (16, 32); (32, 48); (5, 5)] = [(16, 48)].
+Proof. vm_compute. auto. Qed.
